@@ -182,7 +182,7 @@ def check_case(rec, spec, X, repo):
                       f"n={n} p={p}: {stage} raised {name}: {str(exc)[:120]}", "C04.returns-a-frame", inp)
         return True, -1
     for s, msg in oc.wellformed(spec, y, n, p):
-        rec.violation(f"{det}:{s}", f"{det}({json.dumps(spec.get('params'))}) n={n} p={p}: {msg}", f"C04.{s}", inp)
+        rec.violation(oc.qualify(det, s), f"{det}({json.dumps(spec.get('params'))}) n={n} p={p}: {msg}", f"C04.{s}", inp)
     return True, oc.n_detections(y)
 
 
